@@ -28,10 +28,12 @@ type c11Op struct {
 }
 
 type c11Pat struct {
-	// Kind: "" (always) | nr | fnr | match | v
-	Kind string `json:"kind,omitempty"`
-	K    int    `json:"k,omitempty"`
-	Lit  string `json:"lit,omitempty"`
+	// Kind: "" (always) | nr | fnr | match | v | fn (a call of a user function that runs Sub and
+	// returns K; only as the pattern of a rule that is not a range)
+	Kind string  `json:"kind,omitempty"`
+	K    int     `json:"k,omitempty"`
+	Lit  string  `json:"lit,omitempty"`
+	Sub  []c11Op `json:"sub,omitempty"`
 }
 
 type c11Rule struct {
@@ -309,7 +311,9 @@ func (c11Engine) Gen(r *core.Rand, tier string, i int) any {
 	nr := r.Range(0, 4)
 	for k := 0; k < nr; k++ {
 		rule := c11Rule{Pat: c11GenPat(r), Body: c11GenOps(r, "rule", 0, allowCmd)}
-		if r.Chance(1, 4) {
+		if r.Chance(1, 8) {
+			rule.Pat = c11Pat{Kind: "fn", K: r.Intn(2), Sub: c11GenOpsL(r, "fn", 1, allowCmd, false)}
+		} else if r.Chance(1, 4) {
 			rule.Range = true
 			rule.Pat2 = c11GenPat(r)
 			if rule.Pat.Kind == "" {
@@ -455,8 +459,11 @@ func c11Source(sc *c11Scn) string {
 	if len(sc.Begin) > 0 {
 		parts = append(parts, "BEGIN { "+g.ops(sc.Begin)+"}")
 	}
-	for _, rule := range sc.Rules {
+	for i, rule := range sc.Rules {
 		pat := c11PatText(rule.Pat)
+		if rule.Pat.Kind == "fn" {
+			pat = fmt.Sprintf("pf%d()", i)
+		}
 		if rule.Range {
 			pat = pat + ", " + c11PatText(rule.Pat2)
 		}
@@ -464,6 +471,12 @@ func c11Source(sc *c11Scn) string {
 	}
 	if sc.HasEnd {
 		parts = append(parts, "END { "+g.ops(sc.End)+"}")
+	}
+	// pattern functions come last in the numbering of ops
+	for i, rule := range sc.Rules {
+		if rule.Pat.Kind == "fn" {
+			g.funcs = append(g.funcs, fmt.Sprintf("function pf%d() { %sreturn %d }", i, g.ops(rule.Pat.Sub), rule.Pat.K))
+		}
 	}
 	return strings.Join(append(g.funcs, parts...), "\n")
 }
@@ -891,6 +904,16 @@ func c11RunModel(sc *c11Scn) *c11Model {
 		base += c11Count(r.Body)
 	}
 	endBase := base
+	if sc.HasEnd {
+		base += c11Count(sc.End)
+	}
+	patBase := make([]int, len(sc.Rules))
+	for i, r := range sc.Rules {
+		patBase[i] = base
+		if r.Pat.Kind == "fn" {
+			base += c11Count(r.Pat.Sub)
+		}
+	}
 	if sig == sigError || sig == sigNext || sig == sigNextfile {
 		m.errEnd = true
 		return m
@@ -913,7 +936,24 @@ func c11RunModel(sc *c11Scn) *c11Model {
 			m.setRec(rec)
 			for i, rule := range sc.Rules {
 				matched := false
-				if !rule.Range {
+				if !rule.Range && rule.Pat.Kind == "fn" {
+					// the pattern calls a function: whatever ends the function's body early
+					// (next, nextfile, exit, an error) acts as it does in an action
+					m.n = patBase[i]
+					switch m.run(rule.Pat.Sub) {
+					case sigNext:
+						continue records
+					case sigNextfile:
+						m.cur = nil
+						continue records
+					case sigExit:
+						break records
+					case sigError:
+						m.errEnd = true
+						return m
+					}
+					matched = rule.Pat.K != 0
+				} else if !rule.Range {
 					matched = m.match(rule.Pat)
 				} else {
 					if !m.inRange[i] {
@@ -1170,6 +1210,13 @@ func (c11Engine) Shrink(scAny any) []any {
 			c := clone()
 			c.Rules[i].Pat = c11Pat{}
 			out = append(out, c)
+		}
+		if rule.Pat.Kind == "fn" {
+			for _, ops := range c11ShrinkOps(rule.Pat.Sub) {
+				c := clone()
+				c.Rules[i].Pat.Sub = ops
+				out = append(out, c)
+			}
 		}
 	}
 	for _, ops := range c11ShrinkOps(sc.End) {
